@@ -239,7 +239,8 @@ def kind_to_coq(k):
 
 
 def stmt_to_coq(sid, deps, cond, kind):
-    return "(Build_stmt %d [%s] %s %s)" % (sid, "; ".join("%d" % d for d in deps), to_coq(cond), kind_to_coq(kind))
+    return "(Build_stmt %d%%nat [%s] %s %s)" % (sid, "; ".join("%d%%nat" % d for d in deps), to_coq(cond),
+                                               kind_to_coq(kind))
 
 
 RAISE_CLASSES = {"ValueError": ValueError, "RuntimeError": RuntimeError, "ArithmeticError": ArithmeticError}
